@@ -106,18 +106,19 @@ Fixpoint crun_cap (cap : N) (s : cst) (l : bytes) : cst * bytes * bytes :=
 Definition hexdig (upper : bool) (v : N) : N :=
   if v <? 10 then 48 + v else if upper then 55 + v else 87 + v.
 
-(* printf("%x"/"%X"): most significant digit first, no leading zeros, "0" for zero *)
-Fixpoint hex_aux (fuel : nat) (upper : bool) (n : N) (acc : bytes) : bytes :=
+(* printf("%x"/"%X"): most significant digit first, no leading zeros, "0" for zero; fuel = an upper bound on
+   the number of digits *)
+Fixpoint hex_digits (fuel : nat) (upper : bool) (n : N) : bytes :=
   match fuel with
-  | O => acc
-  | S k => let acc' := hexdig upper (n mod 16) :: acc in
-           if n / 16 =? 0 then acc' else hex_aux k upper (n / 16) acc'
+  | O => []
+  | S k => if n <? 16 then [hexdig upper n]
+           else hex_digits k upper (n / 16) ++ [hexdig upper (n mod 16)]
   end.
 Definition crlf : bytes := [13; 10].
 
 (* a chunk whose size is |d|, with chunk-ext text `ext` *)
 Definition enc_chunk (upper : bool) (ext d : bytes) : bytes :=
-  hex_aux (S (length d)) upper (lenN d) [] ++ ext ++ crlf ++ d ++ crlf.
+  hex_digits (S (length d)) upper (lenN d) ++ ext ++ crlf ++ d ++ crlf.
 (* last-chunk, trailer section (already CRLF-terminated field lines), final CRLF *)
 Definition enc_last (ext trailer : bytes) : bytes := [48] ++ ext ++ crlf ++ trailer ++ crlf.
 
